@@ -148,6 +148,73 @@ fn play(turns: usize, seed: u64, trace: Option<String>) -> Result<String, String
     ))
 }
 
+/// `longgame unwind <turns> <stack>`: the thread that owns the long game PANICS, so that the state is
+/// dropped while the stack unwinds; discarding a game this way must not abort the process either
+fn unwind(args: &[String]) {
+    let turns: usize = args[0].parse().unwrap();
+    let stack: usize = args[1].parse().unwrap();
+    std::panic::set_hook(Box::new(|_| {}));
+    let h = std::thread::Builder::new()
+        .stack_size(stack)
+        .spawn(move || {
+            let mut rng = Rng::new(7);
+            let c0 = start_cells();
+            let mut gs = state_from_cells(&c0, true, 2).unwrap();
+            // a quick capture-free game without repetition bookkeeping: horses walk, never twice the
+            // same direction back (positions may repeat at most twice thanks to the occurrence table)
+            let mut table: HashMap<([u8; 64], bool), u8> = HashMap::new();
+            let mut played = 0;
+            while played < turns {
+                let me = if gs.is_p1_turn_to_move() { 1 } else { 2 };
+                let cn = cells(gs.piece_board());
+                let mut cand: Vec<Action> = gs
+                    .valid_actions_no_rep()
+                    .into_iter()
+                    .filter(|a| match a {
+                        Action::Move(sq, d) => {
+                            let v = cn[sq.index()];
+                            v != 0 && owner(v) == me && v != 1 && v != 7
+                                && dest_of(sq.index(), *d).map_or(false, |t| !TRAPS.contains(&t))
+                        }
+                        _ => false,
+                    })
+                    .collect();
+                rng.shuffle(&mut cand);
+                let mut done = false;
+                for a in cand.iter() {
+                    let mid = gs.take_action(a);
+                    let key = (cells(mid.piece_board()), !gs.is_p1_turn_to_move());
+                    let cnt = *table.get(&key).unwrap_or(&0);
+                    if cnt >= 2 {
+                        continue;
+                    }
+                    table.insert(key, cnt + 1);
+                    gs = mid.take_action(&Action::Pass);
+                    done = true;
+                    break;
+                }
+                if !done {
+                    std::process::exit(3);
+                }
+                played += 1;
+            }
+            let hl = gs.unwrap_play_phase().hash_history().len();
+            if hl != turns + 1 {
+                std::process::exit(5);
+            }
+            let _keep = gs;
+            panic!("deliberate panic while owning a long game");
+        })
+        .unwrap();
+    match h.join() {
+        Err(_) => println!("{{\"ok\":1,\"unwound\":1,\"turns\":{}}}", turns),
+        Ok(_) => {
+            println!("{{\"ok\":0,\"err\":\"thread did not panic\"}}");
+            std::process::exit(4);
+        }
+    }
+}
+
 fn run(args: &[String]) {
     let turns: usize = args[0].parse().unwrap();
     let stack: usize = args[1].parse().unwrap();
@@ -241,6 +308,21 @@ fn ladder(args: &[String]) {
         writeln!(out, "{{\"k\":\"run\",\"n\":{},\"stack\":{},\"survived\":{},\"status\":\"{}\",\"res\":{}}}", n, default_stack, if ok { 1 } else { 0 }, status, body).unwrap();
         out.flush().unwrap();
     }
+    // discarding a long game while a panic unwinds the owning thread
+    {
+        let exe = std::env::current_exe().unwrap();
+        let n = 100000usize;
+        let o = Command::new(exe).arg("unwind").arg(n.to_string()).arg(default_stack.to_string()).output().expect("spawn child");
+        let ok = o.status.success();
+        let status = if ok { "exit0".to_string() } else {
+            #[cfg(unix)]
+            { use std::os::unix::process::ExitStatusExt; match o.status.signal() { Some(s) => format!("signal{}", s), None => format!("exit{}", o.status.code().unwrap_or(-1)) } }
+            #[cfg(not(unix))]
+            { format!("exit{}", o.status.code().unwrap_or(-1)) }
+        };
+        writeln!(out, "{{\"k\":\"unwind\",\"n\":{},\"stack\":{},\"survived\":{},\"status\":\"{}\"}}", n, default_stack, if ok { 1 } else { 0 }, status).unwrap();
+        out.flush().unwrap();
+    }
     let m1 = min_stack(b1);
     let m2 = min_stack(b2);
     writeln!(
@@ -264,6 +346,7 @@ fn main() {
     }
     match args[1].as_str() {
         "run" => run(&args[2..]),
+        "unwind" => unwind(&args[2..]),
         "ladder" => ladder(&args[2..]),
         _ => std::process::exit(2),
     }
